@@ -1,6 +1,8 @@
 import NavisModel.Drv.C09
 import NavisModel.Drv.Forest
 import NavisModel.Drv.C20
+import NavisModel.Drv.Prune
+import NavisModel.Drv.C08
 /-! `navisdrv`: one request per line on stdin (`<prop>.<cmd> <payload>`), one answer per line on stdout. -/
 open Navis
 
@@ -9,6 +11,8 @@ def handle (head rest : String) : Option String :=
   | ["c09", cmd] => Drv.C09.run cmd rest
   | ["f", cmd] => Drv.Forest.run cmd rest
   | ["c20", cmd] => Drv.C20.run cmd rest
+  | ["p", cmd] => Drv.Prune.run cmd rest
+  | ["c08", cmd] => Drv.C08.run cmd rest
   | ["ping"] => some "pong"
   | _ => none
 
